@@ -17,7 +17,7 @@ const sqlClassAlphabet = "kUBEtfn1vso&cA(){}.,:;T?X\\"
 func isClass(b byte) bool { return strings.IndexByte(sqlClassAlphabet, b) >= 0 }
 
 var sqlQuick = []Mix{
-	{Gen: "corpus"}, {Gen: "bytes"}, {Gen: "trunc"},
+	{Gen: "corpus"}, {Gen: "bytes"}, {Gen: "padded"}, {Gen: "trunc"},
 	{Gen: "atoms", Dict: "sqlcore", K: 3},
 	{Gen: "atoms", Dict: "sqledge", K: 4},
 	{Gen: "atoms", Dict: "sqlext", K: 2},
@@ -29,7 +29,7 @@ var sqlQuick = []Mix{
 }
 
 var sqlThorough = []Mix{
-	{Gen: "corpus"}, {Gen: "bytes"}, {Gen: "trunc"},
+	{Gen: "corpus"}, {Gen: "bytes"}, {Gen: "padded", N: 1}, {Gen: "trunc"},
 	{Gen: "atoms", Dict: "sqlcore", K: 4},
 	{Gen: "atoms", Dict: "sqledge", K: 6},
 	{Gen: "atoms", Dict: "sqlmid", K: 5},
@@ -285,7 +285,7 @@ func cascade(s string) cascadeResult {
 }
 
 var c08Quick = []Mix{
-	{Gen: "corpus"}, {Gen: "trunc"}, {Gen: "bytes"},
+	{Gen: "corpus"}, {Gen: "trunc"}, {Gen: "bytes"}, {Gen: "padded"},
 	{Gen: "atoms", Dict: "sqlcore", K: 3},
 	{Gen: "atoms", Dict: "sqlext", K: 2},
 	{Gen: "seq", Dict: "sqlext", N: 300000},
@@ -295,7 +295,7 @@ var c08Quick = []Mix{
 	{Gen: "g03", N: 150000},
 }
 var c08Thorough = []Mix{
-	{Gen: "corpus"}, {Gen: "trunc"}, {Gen: "bytes"},
+	{Gen: "corpus"}, {Gen: "trunc"}, {Gen: "bytes"}, {Gen: "padded", N: 1},
 	{Gen: "atoms", Dict: "sqlcore", K: 4},
 	{Gen: "atoms", Dict: "sqlext", K: 3},
 	{Gen: "atoms", Dict: "sqlmid", K: 5},
